@@ -71,8 +71,24 @@ pub enum Event {
     Alloc { charge: usize, ok: bool, allocated: usize, next_gc: usize, limit: usize, live_bytes: Option<usize> },
     Dealloc { charge: usize, allocated: usize },
     GcBegin { objects: usize, allocated: usize },
+    /// the heap as the collector finds it (only when `snapshots` is on): root categories and the
+    /// object graph, objects identified by address
+    GcSnapshot(Box<HeapSnapshot>),
+    /// an object released by the sweep of the collection in progress
+    GcFree { addr: usize },
     GcEnd { objects: usize, allocated: usize, live_bytes: Option<usize> },
     Clear { allocated: usize },
+}
+
+#[derive(Debug, Clone, PartialEq, Default)]
+pub struct HeapSnapshot {
+    pub stack: Vec<usize>,
+    pub globals: Vec<usize>,
+    pub frames: Vec<usize>,
+    pub upvals: Vec<usize>,
+    pub guards: Vec<usize>,
+    /// (address, kind, outgoing references)
+    pub objects: Vec<(usize, &'static str, Vec<usize>)>,
 }
 
 #[derive(Default)]
@@ -87,6 +103,10 @@ pub struct Hooks {
     pub run_depth: u32,
     /// compute the bytes reachable from the roots when an allocation fails
     pub live_bytes_on_failure: bool,
+    /// record a HeapSnapshot at the start of every collection and a GcFree per swept object
+    pub snapshots: bool,
+    /// true while a collection is sweeping
+    pub in_gc: bool,
 }
 
 thread_local! {
@@ -234,5 +254,76 @@ impl crate::vm::runtime::RuntimeData {
             }
         }
         total
+    }
+}
+
+pub(crate) fn wants_snapshots() -> bool {
+    HOOKS.with(|h| h.try_borrow().map(|h| h.snapshots).unwrap_or(false))
+}
+
+pub(crate) fn set_in_gc(on: bool) {
+    HOOKS.with(|h| {
+        if let Ok(mut h) = h.try_borrow_mut() {
+            h.in_gc = on;
+        }
+    });
+}
+
+pub(crate) fn in_gc() -> bool {
+    HOOKS.with(|h| h.try_borrow().map(|h| h.in_gc && h.snapshots).unwrap_or(false))
+}
+
+impl crate::vm::runtime::RuntimeData {
+    /// root categories and object graph; written for the harness, shares no code with `gc`
+    pub fn verif_snapshot(&self) -> HeapSnapshot {
+        use crate::value::Value;
+        use crate::vm::runtime::cao_lang_object::{CaoLangObject, CaoLangObjectBody, GcMarker};
+        let addr = |v: &Value| match v {
+            Value::Object(o) => Some(o.as_ptr() as usize),
+            _ => None,
+        };
+        let mut snap = HeapSnapshot::default();
+        snap.stack = self.value_stack.iter().filter_map(|v| addr(&v)).collect();
+        snap.globals = self.global_vars.iter().filter_map(addr).collect();
+        for f in self.call_stack.iter() {
+            if !f.closure_object.is_null() {
+                snap.frames.push(f.closure_object as usize);
+            }
+        }
+        let mut u = self.open_upvalues as *const CaoLangObject;
+        let mut guard = 0;
+        unsafe {
+            while let Some(o) = u.as_ref() {
+                snap.upvals.push(u as usize);
+                guard += 1;
+                match o.as_upvalue() {
+                    Some(up) if guard < 100_000 => u = up.next,
+                    _ => break,
+                }
+            }
+            for o in self.object_list.iter() {
+                let obj = o.as_ref();
+                if matches!(obj.marker, GcMarker::Protected) {
+                    snap.guards.push(o.as_ptr() as usize);
+                }
+                let (kind, edges): (&'static str, Vec<usize>) = match &obj.body {
+                    CaoLangObjectBody::Table(t) => {
+                        let mut e = vec![];
+                        for (k, v) in t.iter() {
+                            e.extend(addr(k));
+                            e.extend(addr(v));
+                        }
+                        ("table", e)
+                    }
+                    CaoLangObjectBody::String(_) => ("string", vec![]),
+                    CaoLangObjectBody::Function(_) => ("function", vec![]),
+                    CaoLangObjectBody::NativeFunction(_) => ("native", vec![]),
+                    CaoLangObjectBody::Closure(c) => ("closure", c.upvalues.iter().map(|u| u.as_ptr() as usize).collect()),
+                    CaoLangObjectBody::Upvalue(up) => ("upvalue", up.location.as_ref().and_then(addr).into_iter().collect()),
+                };
+                snap.objects.push((o.as_ptr() as usize, kind, edges));
+            }
+        }
+        snap
     }
 }
